@@ -535,6 +535,14 @@ Qed.
 Lemma cls_eqb_eq a b : cls_eqb a b = true -> a = b.
 Proof. destruct a, b; simpl; intros H; try discriminate; reflexivity. Qed.
 
+(* simplify_if_same splices only an un-named operand of the operation's own class (repair of F16); a
+   named one is kept as a nested bool clause of the same kind, which the semantics evaluates like any
+   other operand *)
+Lemma flattened_cls t p : flattened t p = true -> cls_eqb (cls_of t) p = true.
+Proof. unfold flattened. intros H. apply andb_prop in H as [H _]. exact H. Qed.
+Lemma not_cls_not_flattened t p : cls_eqb (cls_of t) p = false -> flattened t p = false.
+Proof. unfold flattened. intros ->. reflexivity. Qed.
+
 Lemma bool_matches_must m : bool_matches m [] [] = forallb id m.
 Proof. unfold bool_matches. simpl. rewrite !andb_true_r. reflexivity. Qed.
 Lemma bool_matches_must_not n : bool_matches [] [] n = negb (existsb id n).
@@ -665,7 +673,7 @@ Section Main.
     match par with
     | None => visit cfg env t None cx
     | Some p =>
-        if cls_eqb (cls_of t) p then walk (visit cfg env) (Some p) cx (children t)
+        if flattened t p then walk (visit cfg env) (Some p) cx (children t)
         else if mixes cfg p (cls_of t)
              then (if Nat.ltb (length (children t)) 2 then RExc (XOther KIndexError) else RExc XMix)
              else visit cfg env t None cx
@@ -691,7 +699,7 @@ Section Main.
     (forall c, In c l -> cls_eqb (cls_of c) p = true -> conj_like cfg c || disj_like cfg c = true) ->
     walk (visit cfg env) (Some p) cx l = ROk items ->
     exists parts, items = concat parts /\
-      Forall2 (fun c its => if cls_eqb (cls_of c) p then FL c cx its else NF c cx its) l parts.
+      Forall2 (fun c its => if flattened c p then FL c cx its else NF c cx its) l parts.
   Proof.
     induction l as [|c l IH]; intros items HS Hcl Hw.
     - simpl in Hw. inversion Hw. exists []. split; constructor.
@@ -700,46 +708,46 @@ Section Main.
       inversion Hw; subst items. inversion HS as [|? ? (HSc & Hsc & Hbc) HS']; subst.
       destruct (IH its' HS' (fun c' Hin => Hcl c' (or_intror Hin)) eq_refl) as [parts [Hp HF]].
       exists (its :: parts). split; [simpl; rewrite Hp; reflexivity|]. constructor; [|exact HF].
-      rewrite visit_par in Hc. destruct (cls_eqb (cls_of c) p) eqn:He.
-      + apply cls_eqb_eq in He as He'. subst p.
+      rewrite visit_par in Hc. destruct (flattened c p) eqn:Hf.
+      + apply flattened_cls in Hf as He. apply cls_eqb_eq in He as He'. subst p.
         apply (proj2 (HSc Hsc Hbc)); [apply Hcl; [left; reflexivity|exact He]|exact Hc].
       + destruct (mixes cfg p (cls_of c)); [destruct (Nat.ltb (length (children c)) 2); discriminate|].
         apply (proj1 (HSc Hsc Hbc)). exact Hc.
   Qed.
 
   Lemma parts_good p cx l parts :
-    Forall2 (fun c its => if cls_eqb (cls_of c) p then FL c cx its else NF c cx its) l parts ->
+    Forall2 (fun c its => if flattened c p then FL c cx its else NF c cx its) l parts ->
     forallb egood (concat parts) = true /\ (l <> [] -> concat parts <> []).
   Proof.
     induction 1 as [|c its l parts Hc _ [IH1 IH2]]; [split; [reflexivity|congruence]|].
     simpl. rewrite forallb_app, IH1, andb_true_r.
-    destruct (cls_eqb (cls_of c) p).
+    destruct (flattened c p).
     - destruct Hc as (Hg & Hn & _). split; [exact Hg|]. intros _ Habs. apply app_eq_nil in Habs. tauto.
     - destruct Hc as (e & -> & Hg & _). split; [simpl; rewrite Hg; reflexivity|discriminate].
   Qed.
 
   Lemma parts_conj p cx l parts F :
     fsim F (fun l => l) ->
-    Forall2 (fun c its => if cls_eqb (cls_of c) p then FL c cx its else NF c cx its) l parts ->
+    Forall2 (fun c its => if flattened c p then FL c cx its else NF c cx its) l parts ->
     (forall c, In c l -> cls_eqb (cls_of c) p = true -> conj_like cfg c = true) ->
     forallb (EV F) (concat parts) = forallb (fun c => D c cx []) l.
   Proof.
     intros HF H. induction H as [|c its l parts Hc _ IH]; intros Hcl; [reflexivity|].
     simpl. rewrite forallb_app, IH by (intros c' Hin; apply Hcl; right; exact Hin). f_equal.
-    destruct (cls_eqb (cls_of c) p) eqn:He.
+    destruct (flattened c p) eqn:Hf; [apply flattened_cls in Hf as He|].
     - destruct Hc as (_ & _ & Hc). apply (proj1 (Hc F HF)). apply Hcl; [left; reflexivity|exact He].
     - destruct Hc as (e & -> & _ & _ & _ & Hc). simpl. rewrite andb_true_r. apply (Hc [] F HF).
   Qed.
 
   Lemma parts_disj p cx l parts F :
     fsim F (fun l => l) ->
-    Forall2 (fun c its => if cls_eqb (cls_of c) p then FL c cx its else NF c cx its) l parts ->
+    Forall2 (fun c its => if flattened c p then FL c cx its else NF c cx its) l parts ->
     (forall c, In c l -> cls_eqb (cls_of c) p = true -> disj_like cfg c = true) ->
     existsb (EV F) (concat parts) = existsb (fun c => D c cx []) l.
   Proof.
     intros HF H. induction H as [|c its l parts Hc _ IH]; intros Hcl; [reflexivity|].
     simpl. rewrite existsb_app, IH by (intros c' Hin; apply Hcl; right; exact Hin). f_equal.
-    destruct (cls_eqb (cls_of c) p) eqn:He.
+    destruct (flattened c p) eqn:Hf; [apply flattened_cls in Hf as He|].
     - destruct Hc as (_ & _ & Hc). apply (proj2 (Hc F HF)). apply Hcl; [left; reflexivity|exact He].
     - destruct Hc as (e & -> & _ & _ & _ & Hc). simpl. rewrite orb_false_r. apply (Hc [] F HF).
   Qed.
@@ -907,8 +915,8 @@ Section Main.
   Qed.
 
   Lemma forall2_nf p cx l parts :
-    (forall c, In c l -> cls_eqb (cls_of c) p = false) ->
-    Forall2 (fun c its => if cls_eqb (cls_of c) p then FL c cx its else NF c cx its) l parts ->
+    (forall c, In c l -> flattened c p = false) ->
+    Forall2 (fun c its => if flattened c p then FL c cx its else NF c cx its) l parts ->
     Forall2 (fun c its => NF c cx its) l parts.
   Proof.
     intros Hnb HF. induction HF as [|c its l parts Hc _ IH]; constructor.
@@ -1071,7 +1079,7 @@ Section Main.
         destruct c as [[]| |[]| | | | |[]|[]|[]|]; try reflexivity. discriminate Hok. }
       destruct (walk_ops _ _ _ _ HS (fun c Hin He => ltac:(rewrite (Hnb c Hin) in He; discriminate He)) Hw)
         as [parts [-> HF]].
-      pose proof (forall2_nf _ _ _ _ Hnb HF) as HF'.
+      pose proof (forall2_nf _ _ _ _ (fun c Hin => not_cls_not_flattened c _ (Hnb c Hin)) HF) as HF'.
       destruct (parts_good _ _ _ _ HF) as [Hg Hne].
       exists (EOp EKBool (concat parts)). split; [reflexivity|]. split; [exact Hg|].
       split; [apply supported_op_length in Hs; destruct (concat parts);
